@@ -241,11 +241,11 @@ def count_occurrences(g, node):
 
 def run_shard(rec):
     quick = rec.tier == 'quick'
-    rec.deadline = time.time() + (30 if quick else 240)
+    rec.deadline = time.time() + (30 if quick else 600)
     g = forest.load_module()
     rng = rec.rng
     fams = callback_families(g, rng)
-    n = 1500 if quick else 30000
+    n = 1500 if quick else 300000
     for k in range(n):
         if rec.out_of_time():
             rec.count('cut_by_time')
